@@ -95,7 +95,7 @@ class C04(Prop):
                         if n >= 10 and k % 3:
                             continue
                         yield mk_remove_case(ets[k % len(ets)], pattern, stride, off, (k // 7) % 2)
-        for _ in range(200 if tier == "quick" else 3000):
+        for _ in range(200 if tier == "quick" else 12000):
             n = rng.range(9, 60)
             dens = rng.choice([1, 2, 5, 9])
             pattern = [None if rng.below(10) < dens else i + 1 for i in range(n)]
